@@ -957,8 +957,12 @@ def __fixXmlPart(xmlpart):
     result=xmlpart
     requestedPrefixes = (u'meta', u'config', u'dc', u'style',
                          u'svg', u'fo',u'draw', u'table',u'form')
+    import re
+    root = re.search(u'<(?![?!])[^\\s/>]+', xmlpart)        # name of the document element
+    if root is None: return xmlpart
+    roottag = xmlpart[root.end():xmlpart.find(u'>', root.end())]
     for prefix in requestedPrefixes:
-        if u' xmlns:{prefix}'.format(prefix=prefix) not in xmlpart:
+        if not re.search(u'\\sxmlns:%s\\s*=' % prefix, roottag):
             ###########################################
             # fixed a bug triggered by math elements
             # Notice: math elements are creectly exported to XHTML
@@ -966,7 +970,7 @@ def __fixXmlPart(xmlpart):
             # 2016-02-19 G.K.
             ###########################################
             try:
-                pos=result.index(u" xmlns:")
+                pos=root.end()
                 toInsert=u' xmlns:{prefix}="urn:oasis:names:tc:opendocument:xmlns:{prefix}:1.0"'.format(prefix=prefix)
                 result=result[:pos]+toInsert+result[pos:]
             except:
